@@ -490,6 +490,40 @@ func checkCaseNoKit(col *collector, t polycut.Truth, c polycut.Case, ext bool, n
 		}
 	}
 
+	if ext {
+		// two versions of the relation annotated in ONE call; every member way got a second
+		// version in between that lists its nodes the other way round: version 1 is annotated
+		// with the directions of the ways as they were, version 2 with the opposite ones
+		b := polycut.Build(t, c, polycut.Options{Annotated: true, RelationType: "multipolygon"})
+		ds := &osm.HistoryDatasource{Ways: map[osm.WayID]osm.Ways{}}
+		for _, w := range b.OSM.Ways {
+			w1 := kit.DeepCopy(w).(*osm.Way)
+			w2 := kit.DeepCopy(w).(*osm.Way)
+			w2.Version, w2.ChangesetID, w2.Timestamp = 2, 17, polycut.RelationTime.Add(24*time.Hour)
+			for i, j := 0, len(w2.Nodes)-1; i < j; i, j = i+1, j-1 {
+				w2.Nodes[i], w2.Nodes[j] = w2.Nodes[j], w2.Nodes[i]
+			}
+			ds.Ways[w.ID] = osm.Ways{w1, w2}
+		}
+		r1 := b.Relation
+		r2 := kit.DeepCopy(r1).(*osm.Relation)
+		r2.Version, r2.ChangesetID, r2.Timestamp = 2, 18, polycut.RelationTime.Add(48*time.Hour)
+		err := annotate.Relations(context.Background(), osm.Relations{r1, r2}, ds, annotate.Threshold(time.Hour))
+		n.annot++
+		if err != nil {
+			col.add("annotate.error/two-versions/"+shape, fmt.Sprintf("annotate.Relations on two versions failed: %v for %s", err, c.Fingerprint()), c)
+		} else {
+			checkOrientations(col, "orientation/two-versions-first/"+shape, b, c)
+			for i, m := range r2.Members {
+				if want := -b.Members[i].Winding; m.Orientation != want {
+					col.add("orientation/two-versions-second/"+shape, fmt.Sprintf("member %d (%s %d, role %q) of the second relation version annotated %d, its way (second version, nodes the other way round) runs %d around its ring; case %s",
+						i, m.Type, m.Ref, m.Role, m.Orientation, want, c.Fingerprint()), c)
+					break
+				}
+			}
+		}
+	}
+
 	vs := variants
 	if ext {
 		vs = append(append([]variant(nil), variants...), extVariants...)
